@@ -626,12 +626,12 @@ Proof. split; cbn; auto. apply env_ok_nil. Qed.
 
 (** ** programs *)
 Lemma run_sound : forall fuel p,
-  match snd (run true fuel p) with
+  match snd (run_prog true fuel p) with
   | Uncaught e => type_error e = false /\ e <> EStatic
   | _ => True
   end.
 Proof.
-  intros fuel p. unfold run, typecheck, check_prog.
+  intros fuel p. unfold run_prog, typecheck, check_prog.
   destruct (check_block true ([], []) p) as [c'|] eqn:Ec; cbn [is_some]; [|exact I].
   pose proof (exec_block_sound fuel p init_state c' init_ok Ec) as H.
   destruct (exec_block true fuel p init_state); cbn [snd sres_ok] in *; auto.
